@@ -231,9 +231,20 @@ def judge(case, run, result, suspects_out=None):
         elif late:
             what = "executed further steps (%s) after accept had ended" % sorted({e["kind"] for e in late})
         if what:
-            if trigger.startswith("systemexit_") and p["flavour"] == "trio":
+            # what an orphaned trio cleanup hands over lands in an event loop that SystemExit has already aborted
+            via_trio, at = False, pid
+            for _ in range(10):
+                adopted = next((e for e in run.events if e["kind"] == "call" and e.get("op") == "adopt" and e.get("pid") == at and e.get("gen") == 0), None)
+                by = adopted and adopted.get("by")
+                if by not in specs:
+                    break
+                if specs[by]["flavour"] == "trio":
+                    via_trio = True
+                    break
+                at = by
+            if trigger.startswith("systemexit_") and (p["flavour"] == "trio" or via_trio):
                 mech = "C02/systemexit-orphans-trio"
-                problems.append(("trigger %s: trio payload %s %s" % (trigger, pid, what), mech))
+                problems.append(("trigger %s: %s payload %s%s %s" % (trigger, p["flavour"], pid, " (handed over by the cleanup of a trio payload)" if p["flavour"] != "trio" else "", what), mech))
             else:
                 problems.append(("trigger %s: %s payload %s (program %s) %s" % (trigger, p["flavour"], pid, p["program"], what), None))
         else:
